@@ -29,7 +29,7 @@ def run(tier, v):
     cov["states"], cov["transitions"] = r["distinct"], r["states"]
     cov["exhaustive"] = True
     g = vlib.tlc("RelayCfg", "RelayCfgGen.cfg", workers=1, timeout=900, heap="4g",
-                 simulate="num=%d" % (600 if quick else 8000), depth=2, extra_args=["-seed", str(vlib.seed())])
+                 simulate="num=%d" % (600 if quick else 20000), depth=2, extra_args=["-seed", str(vlib.seed())])
     cases = vlib.mbt_lines(g["out"])
     if len(cases) < 100:
         raise vlib.Infra("RelayCfg export produced only %d cases" % len(cases))
@@ -73,7 +73,7 @@ def run(tier, v):
     cov["matrix_errors"] = m["errors"]
     cov["samples"].append({"matrix_case": cases[0]})
     out = os.path.join(vlib.scratch(), "c14r")
-    s = vlib.run_driver(h, "c14_recover", out, {"sequences": 24 if quick else 240, "shards": 24 if quick else 48}, timeout=3000)
+    s = vlib.run_driver(h, "c14_recover", out, {"sequences": 24 if quick else 720, "shards": 24 if quick else 48}, timeout=3000)
     files, details = E.gather(out)
     def keyfn(kind, run, det):
         x = next((e for e in run if e.get("e") == "xfer"), {})
